@@ -202,6 +202,15 @@ func ReportIdxWidth(w *World, r *Report, names ...string) {
 				check(ins, x.High, "slice bound")
 			case *ssa.MakeSlice:
 				check(ins, x.Len, "allocation length")
+			case *ssa.Call:
+				// a position handed to another function of the module is an index there
+				if f := x.Common().StaticCallee(); f != nil && w.InModule(f) && f.Blocks != nil {
+					for i, a := range x.Common().Args {
+						if isIntType(a.Type()) {
+							check(ins, a, fmt.Sprintf("argument %d of %s", i, f.Name()))
+						}
+					}
+				}
 			}
 		})
 		r.Check(bad == "", "R-IDXWIDTH", n, w.Pos(fn.Pos()), bad, fmt.Sprintf("%d index / bound / length operands, none narrowed", nidx))
